@@ -153,7 +153,15 @@ def typeDefOf : Sexp → P TypeDef
 
 def schemaOf : Sexp → P Schema
   | .list (.atom "schema" :: q :: m :: tds) => do
-    pure { query := (← atomOf q), mutation := (← optName m), types := (← tds.mapM typeDefOf) }
+    -- `(input1 NAME ARGDEF*)` is an `@oneOf` input object
+    let ones := tds.filterMap (fun td => match td with
+      | .list (.atom "input1" :: .atom n :: _) => some n
+      | _ => none)
+    let tds' := tds.map (fun td => match td with
+      | .list (.atom "input1" :: rest) => Sexp.list (.atom "input" :: rest)
+      | x => x)
+    pure { query := (← atomOf q), mutation := (← optName m), types := (← tds'.mapM typeDefOf),
+           oneOfs := ones }
   | _ => fail "schema"
 
 def argsOf : Sexp → P (List (Name × Value))
@@ -235,7 +243,15 @@ partial def dataOf : Sexp → P RVal
   | .list [.atom "fl", n] => do pure (.leaf (.flt (← intOf n)))
   | .list (.atom "s" :: cps) => do pure (.leaf (.str (← cps.mapM natOf)))
   | .list [.atom "b", b] => do pure (.leaf (.bool (← boolOf b)))
-  | .list [.atom "raise", t] => do pure (.raise (← natOf t))
+  | .list [.atom "raise", t] => do pure (.raise (← natOf t) none)
+  | .list [.atom "raise", t, .list (.atom "p" :: segs)] => do
+    let ps ← segs.mapM (fun x => do
+      let a ← atomOf x
+      if a.startsWith "k:" then pure (PSeg.key (a.drop 2).toString)
+      else match (a.drop 2).toString.toNat? with
+        | some n => pure (PSeg.idx n)
+        | none => fail "path segment")
+    pure (.raise (← natOf t) (some ps))
   | .list (.atom "l" :: xs) => do pure (.list (← xs.mapM dataOf))
   | .list (.atom "obj" :: tn :: es) => do
     let tn ← match tn with
